@@ -12,7 +12,7 @@ ASSUMPTIONS = ["reference AES written from FIPS-197, self-tested against FIPS-19
 NSHARDS = {"quick": 16, "thorough": 32}
 BUDGET_S = {"quick": 200, "thorough": 1500}
 MIN_HITS = {
-    'quick': {"enc": 542, "dec": 542, "ctr_carry": 44, "bad_pad": 896, "bad_len": 2209},
+    'quick': {"enc": 547, "dec": 547, "ctr_carry": 44, "bad_pad": 896, "bad_len": 2209},
     'thorough': {"enc": 9196, "dec": 9196, "ctr_carry": 384, "bad_pad": 7680, "bad_len": 2016},
 }
 MODES = {"128cbc": 16, "256cbc": 32, "128ctr": 16, "256ctr": 32}
@@ -67,6 +67,8 @@ def cases(ctx):
                     low = (1 << 64) - 1 - r.randrange(4, 8)  # never wraps within 4 blocks
                 hi = r.getrandbits(64)
                 mid = r.getrandbits(64 - 8 * pos) << (8 * pos) if pos < 8 else 0
+                if pos < 8:
+                    mid &= ~(1 << 63) & ((1 << 64) - 1)  # the low 64 bits must not wrap within the message (outside the claimed domain)
                 iv = ((hi << 64) | ((mid | low) & ((1 << 64) - 1))).to_bytes(16, "big")
                 nblocks = 4 if pos == 8 else 6
                 yield {"k": "rt", "mode": mode, "key": gen.rbytes(r, MODES[mode]).hex(), "iv": iv.hex(), "msg": gen.rbytes(r, 16 * nblocks - r.randrange(0, 16)).hex(), "carry": pos}
@@ -139,6 +141,30 @@ def cases(ctx):
         iv = gen.rbytes(r, 16)
         yield {"k": "seq", "mode": mode, "keys": [x.hex() for x in fam], "iv": iv.hex(), "msg": gen.rbytes(r, r.choice([1, 16, 33, 64])).hex(), "same_iv": True}
         yield {"k": "seq", "mode": mode, "keys": [x.hex() for x in fam[::-1]], "iv": iv.hex(), "msg": gen.rbytes(r, 20).hex(), "same_iv": False}
+    # messages whose FIRST ciphertext block equals the IV (m1 = D_k(IV) xor IV; found with the reference), and whose second block equals
+    # the first: a decoder that looks for an IV copied in front of the ciphertext must not eat genuine data
+    for mode in ("128cbc", "256cbc"):
+        k += 1
+        if k % N != S and not t:
+            continue
+        key_, iv_ = gen.rbytes(r, MODES[mode]), gen.rbytes(r, 16)
+        rk_ = aes.expand_key(key_)
+        m1 = bytes(x ^ y for x, y in zip(aes.dec_block(rk_, iv_), iv_))
+        for rest in (b"", gen.rbytes(r, 5), gen.rbytes(r, 16), gen.rbytes(r, 40)):
+            yield {"k": "rt", "mode": mode, "key": key_.hex(), "iv": iv_.hex(), "msg": (m1 + rest).hex(), "rel": "first_block_equals_iv"}
+        # second ciphertext block equal to the first: m2 = D_k(c1) xor c1
+        c1 = aes.cbc_encrypt_raw(key_, iv_, m1[:16]) if hasattr(aes, "cbc_encrypt_raw") else None
+        if c1:
+            m2 = bytes(x ^ y for x, y in zip(aes.dec_block(rk_, c1[:16]), c1[:16]))
+            yield {"k": "rt", "mode": mode, "key": key_.hex(), "iv": iv_.hex(), "msg": (m1 + m2 + gen.rbytes(r, 3)).hex(), "rel": "first_block_equals_iv"}
+    # several threads encrypting with DIFFERENT keys at the same time (process-wide state guarded by a check-then-use window)
+    if S % 4 == 1 or t:
+        items = []
+        for mode, kl in MODES.items():
+            for _ in range(3):
+                key_, iv_, m_ = gen.rbytes(r, kl), gen.rbytes(r, 16), gen.rbytes(r, r.choice([5, 16, 33]))
+                items.append({"mode": mode, "key": key_.hex(), "iv": iv_.hex(), "msg": m_.hex()})
+        yield {"k": "threads", "mode": "all", "iv": "00" * 16, "items": items, "threads": 8, "iters": 20000 if t else 4000}
     # CBC chaining by the caller: the IV of each call is the last ciphertext block of the previous call on the same thread
     for mode in ("128cbc", "256cbc"):
         k += 1
@@ -222,6 +248,22 @@ def judge(ctx, case):
         want = {"len": len(exp), "sha256": hashlib.sha256(exp).hexdigest(), "sum": sum(exp), "head": exp[:32].hex(), "tail": exp[-32:].hex()}
         if o != want:
             ctx.viol("%s ciphertext of a long message differs from the reference (%s)" % (mode, "length" if not isinstance(o, dict) or o.get("len") != want["len"] else "head" if o.get("head") != want["head"] else "later blocks"), {"len": n, "got": str(o)[:300], "want": str(want)[:300]})
+    elif k == "threads":
+        ctx.hit("concurrent_threads")
+        ctx.nontrivial()
+        items = []
+        for it in case["items"]:
+            kb, ib, mb = bytes.fromhex(it["key"]), bytes.fromhex(it["iv"]), bytes.fromhex(it["msg"])
+            exp = aes.cbc_encrypt(kb, ib, mb) if it["mode"].endswith("cbc") else aes.ctr(kb, ib, mb)
+            items.append(dict(it, exp=exp.hex()))
+        r = ctx.call({"op": "aes_mt", "items": items, "threads": case["threads"], "iters": case["iters"]}, watchdog=600)
+        ctx.ev()
+        if "ok" not in r:
+            ctx.viol("concurrent encryption could not be executed", {"resp": str(r)[:300]})
+        elif r["ok"]["mismatches"]:
+            ctx.viol("ciphertext differs from the reference when several threads encrypt with different keys at the same time", {"mismatches": r["ok"]["mismatches"], "calls": r["ok"]["calls"], "first": r["ok"]["first"]})
+        else:
+            ctx.maxstat("concurrent_calls_observed", r["ok"]["calls"])
     elif k == "chain":
         ctx.hit("caller_chained_iv")
         ctx.nontrivial()
